@@ -486,8 +486,27 @@ impl ZipOffsetBlobStore {
 
     /// Save ZipOffsetBlobStore to file
     pub fn save_to_file<P: AsRef<Path>>(&self, path: P) -> Result<()> {
-        let mut file = std::fs::File::create(path)?;
-        self.save_to_writer(&mut file)
+        // Write the complete image to a temporary file, flush it to disk, then rename it
+        // over the target.  A crash at any point leaves either the previous file or the
+        // complete new one, never a header that vouches for content that was not written.
+        let path = path.as_ref();
+        let mut tmp_name = path.as_os_str().to_os_string();
+        tmp_name.push(".save-tmp");
+        let tmp_path = std::path::PathBuf::from(tmp_name);
+        let write_tmp = || -> Result<()> {
+            let mut file = std::fs::File::create(&tmp_path)?;
+            self.save_to_writer(&mut file)?;
+            file.sync_all()?;
+            Ok(())
+        };
+        if let Err(e) = write_tmp() {
+            let _ = std::fs::remove_file(&tmp_path);
+            return Err(e);
+        }
+        std::fs::rename(&tmp_path, path).map_err(|e| {
+            let _ = std::fs::remove_file(&tmp_path);
+            e.into()
+        })
     }
 
     /// Save ZipOffsetBlobStore to writer
